@@ -29,7 +29,7 @@ one() {
   s=$(python3 -m analysis.selftest C$i | python3 -c "
 import json,sys
 d=json.load(sys.stdin)['selftest']
-print('  selftest C$i: mutants %d/%d fired, missed=%s, benign silent %d/%d, false alarms=%s, n/a=%s, %.0fs' % (d['mutants_fired'], d['mutants_applied'], [x.split('/')[-1] for x in d['mutants_missed']], d['benign_silent'], d['benign_applied'], d['benign_false_alarms'], d['not_applicable_patches'], d['wall_s']))")
+print('  selftest C$i: mutants %d/%d fired, missed=%s, benign silent %d/%d, false alarms=%s, n/a=%s, failed-to-analyse=%s, %.0fs' % (d['mutants_fired'], d['mutants_applied'], [x.split('/')[-1] for x in d['mutants_missed']], d['benign_silent'], d['benign_applied'], d['benign_false_alarms'], d['not_applicable_patches'], d.get('analysis_failed', []), d['wall_s']))")
   printf '%s\n%s\n' "$q" "$s"
 }
 export -f one
